@@ -24,7 +24,21 @@ type walker struct {
 	buf  bytes.Buffer
 	ids  map[pkey]int
 	next int
+	// hidden: also render what lies between len and cap of every slice. The backing array of a caller's slice is
+	// the caller's memory: an append in place writes there, and any other slice over the same array sees it.
+	hidden bool
 }
+
+// BytesWithCapacity renders v like Bytes plus the elements between len and cap of every slice. Only meaningful for
+// comparing the same object graph before and after a call (capacities depend on how a value was built).
+func BytesWithCapacity(v interface{}) []byte {
+	w := &walker{ids: map[pkey]int{}, hidden: true}
+	w.walk(reflect.ValueOf(v))
+	return w.buf.Bytes()
+}
+
+// HashWithCapacity is a short digest of BytesWithCapacity(v).
+func HashWithCapacity(v interface{}) string { return HashBytes(BytesWithCapacity(v)) }
 
 // Bytes renders v canonically.
 func Bytes(v interface{}) []byte {
@@ -104,9 +118,28 @@ func (w *walker) walk(v reflect.Value) {
 		}
 		if v.Type().Elem().Kind() == reflect.Uint8 {
 			w.buf.WriteString(strconv.Quote(string(v.Bytes())))
+			if w.hidden && v.Cap() > v.Len() {
+				w.buf.WriteString("~" + strconv.Quote(string(v.Slice3(0, v.Cap(), v.Cap()).Bytes()[v.Len():])))
+			}
 			return
 		}
-		fallthrough
+		w.buf.WriteString("[")
+		for i := 0; i < v.Len(); i++ {
+			if i > 0 {
+				w.buf.WriteString(",")
+			}
+			w.walk(v.Index(i))
+		}
+		w.buf.WriteString("]")
+		if w.hidden && v.Cap() > v.Len() {
+			h := v.Slice3(0, v.Cap(), v.Cap())
+			w.buf.WriteString("~[")
+			for i := v.Len(); i < h.Len(); i++ {
+				w.walk(h.Index(i))
+				w.buf.WriteString(",")
+			}
+			w.buf.WriteString("]")
+		}
 	case reflect.Array:
 		w.buf.WriteString("[")
 		for i := 0; i < v.Len(); i++ {
